@@ -6,7 +6,9 @@ from sqlparse import tokens as T
 import props.C06 as C06
 
 RULE = ('grammar scripts (comments in any gap, hints) x {strip_comments, keyword_case upper/lower/capitalize, identifier_case upper/lower/capitalize, truncate_strings N (+truncate_char)} alone and combined with layout options; '
-        'each output re-lexed and compared token by token; each filter applied to its own output; non-trivial = distinct (script, filter options)')
+        'each output re-lexed and compared token by token; each filter applied to its own output; sweeps: a comment of every kind directly between every ordered pair of lexical classes '
+        '(no whitespace) in bare/bracket/call context, every lexical class x every case option, literal shapes x widths x markers, comments at nesting depth 1..64; '
+        'optimizer hints are recognised textually (/*+ --+ "# +"), independently of the lexer; non-trivial = distinct (script, filter options)')
 ASSUMPTIONS = ['conversion idempotence of str.upper/lower/capitalize (validated on all code points by S-CASE in the filters validation)', 'lexical bridge by re-lexing with the real lexer']
 PARTIAL = ['case filters: token-level map/idempotence AND the lexical bridge (the output text lexes to exactly the filtered tokens; lexing is invariant under ASCII case flips anywhere) are theorems for values whose case mapping is a same-length re-casing (all ASCII text; KF-C08-7 is the other case); strip_comments and truncate_strings: no fusing and end-to-end idempotence are oracle-checked; known findings KF-C08-1..7']
 
@@ -17,6 +19,11 @@ def toks(text):
 
 def is_hint(tt):
     return tt in T.Comment.Multiline.Hint or tt in T.Comment.Single.Hint
+
+
+def is_hint_text(v):
+    """an optimizer hint by its spelling (docs: comments starting with /*+ , --+ or '# +'): independent of how the lexer types it"""
+    return v.startswith('/*+') or v.startswith('--+') or v.startswith('# +')
 
 
 def check_filter(ctx, text, opts, layout):
@@ -34,7 +41,7 @@ def check_filter(ctx, text, opts, layout):
     # expected token sequence
     exp = []
     for tt, v in a:
-        if opts.get('strip_comments') and tt in T.Comment and not is_hint(tt):
+        if opts.get('strip_comments') and tt in T.Comment and not is_hint_text(v):
             continue
         if tt in T.Comment.Single:
             v = v.rstrip('\r\n')
@@ -84,6 +91,92 @@ def random_filter_opts(rng):
     return o
 
 
+# ---------------------------------------------------------------------------------------------------------------------------------
+# sweeps over finite tables (red-team round)
+ADJ_COMMENTS = ['/*c*/', '--c\n', '# c\n', '/*+h*/', '--+h\n', '# +h\n', '/**/', '/*c*//*d*/', '--\n']      # (no CR inside: after '[' the text up to ']' is a bracket-quoted NAME, whose line ends the serializer rewrites — KF-C06-2)
+ADJ_CONTEXTS = ['{p}', 'select x[{p}] from t', 'select f({p}), ({p}) from t', 'update t set {p} where {p}']
+
+
+def adjacency_cases(ctx):
+    """a comment directly between every ordered pair of lexical classes, without whitespace (removing it must not fuse the neighbours)"""
+    rng = ctx.rng
+    out = []
+    pool = C06.NEIGHBOURS if ctx.quick() else C06.NEIGHBOURS + C06.NEIGHBOURS_THOROUGH
+    for a in pool:
+        for b in pool:
+            if ctx.quick():
+                c = rng.choice(ADJ_COMMENTS[:3])
+                out.append((ADJ_CONTEXTS[0].replace('{p}', a + c + b), {'strip_comments': True}, {}))
+                out.append((rng.choice(ADJ_CONTEXTS[1:]).replace('{p}', a + c + b), {'strip_comments': True}, {}))
+            else:
+                for c in ADJ_COMMENTS:
+                    for pre, post in (('', ''), (' ', ''), ('', ' ')):
+                        for cx in ADJ_CONTEXTS:
+                            out.append((cx.replace('{p}', a + pre + c + post + b), {'strip_comments': True}, {}))
+    ctx.count('sweep.adjacency', len(out))
+    return out
+
+
+# one representative (mixed case) of every lexical class the lexer knows, incl. every quoting style with a quote character of another style inside
+CLASS_TOKENS = ['Select', 'From', 'Order  By', 'Not Null', 'Desc', 'Asc Nulls First', "At Time Zone 'Europe/Berlin'", 'Create Or Replace', 'Union All', 'Left Outer Join', 'End If', 'With',
+                'Int', 'VarChar', 'Double Precision', 'Abc', 'aBc.dEf', '"Ab c"', '"a""B"', '`Ab`', '`a"B`', '[Ab]', '[a"B]', '´Ab´', '´a"B´', '@Var', '#Tmp', '##Glob', ':Param', '$1', '%(Name)s', '?',
+                "'Str'", "'it''S'", "N'Uni'", "E'Esc'", "x'aF'", '$$Body$$', '$Tag$Body$Tag$', '0xaF', '1E5', '1.5e-3', '\\Cmd', '/*Cm*/', '/*+Hint*/', '--Cm\n', '--+Hint\n', '# +Hint\n', '# Cm\n',
+                'Éa', 'ǅx', 'ß', 'Like', 'Not Like', 'Go 2', 'Handler For', 'Lateral View Explode', 'Count(', 'If(', 'Ĳ', 'a_B$c#D']
+CLASS_OPTS = [{'keyword_case': c} for c in ('upper', 'lower', 'capitalize')] + [{'identifier_case': c} for c in ('upper', 'lower', 'capitalize')] + \
+    [{'keyword_case': 'lower', 'identifier_case': 'upper'}, {'keyword_case': 'upper', 'identifier_case': 'lower', 'strip_comments': True}]
+
+
+def class_cases(ctx):
+    out = []
+    for t in CLASS_TOKENS:
+        for tpl in ('%s', 'select %s from t', 'select a, %s x from t where %s = 1'):
+            text = tpl.replace('%s', t + (')' if t.endswith('(') else ''))
+            if t.startswith('Go'):
+                text = 'select 1\n%s\nselect 2' % t       # GO ends a statement: a line of its own
+            for o in CLASS_OPTS:
+                out.append((text, o, {}))
+    ctx.count('sweep.classes', len(out))
+    return out
+
+
+Q = "'"
+TR_INNER = ['', 'a', 'ab', 'abc', 'abcd', 'abcde', '  ab  ', 'ab   ', '   ab', ' ', '     ', 'it' + Q + Q + 's', Q + Q, Q + Q + Q + Q, 'a' + Q + Q, 'a\nb\nc', 'a\r\nbcd', 'éèêë', 'a\tb c', 'a\\b',
+            'a\\' + Q + 'x', 'x' * 40]
+TR_WIDTHS = [2, 3, 4, 5, 10]
+TR_CHARS = [None, '', '…', '..', ' ']
+
+
+def truncate_cases(ctx):
+    out = []
+    for inner in TR_INNER:
+        lit = Q + inner + Q
+        for w in TR_WIDTHS:
+            for ch in TR_CHARS:
+                o = {'truncate_strings': w}
+                if ch is not None:
+                    o['truncate_char'] = ch
+                other = inner.replace('"', '').replace('`', '').replace('\n', ' ').replace('\r', ' ').replace('\\', '/')     # the same text in the other quoting styles: never truncated
+                out.append(('select %s, "%s", `%s` from t where x = %s' % (lit, other, other, lit), o, {}))
+    ctx.count('sweep.truncate', len(out))
+    return out
+
+
+DEPTHS = [1, 2, 3, 5, 8, 13, 15, 16, 17, 18, 21, 34, 64]
+
+
+def depth_cases(ctx):
+    """targets at every nesting depth: the filters walk the tree, nothing may depend on how deep a target sits"""
+    out = []
+    for d in DEPTHS:
+        for opener, closer in (('(', ')'), ('f(', ')'), ('(select ', ' from t)'), ('case when a then ', ' end'), ('[', ']')):
+            inner = "/* c */ x /*+ h */ -- d\n + 'a long literal' /* e */"
+            text = 'select ' + opener * d + inner + closer * d + ' from t'
+            for o in ({'strip_comments': True}, {'strip_comments': True, 'keyword_case': 'upper', 'identifier_case': 'upper', 'truncate_strings': 3}):
+                out.append((text, o, {}))
+    ctx.count('sweep.depth', len(out))
+    return out
+
+
 def run(ctx):
     rng = ctx.rng
     g = grammar.Gen(rng)
@@ -98,9 +191,12 @@ def run(ctx):
         cs.append((text, opts, layout))
     for c in streams.corpus('C08'):
         cs.append((c['input'], c['options'], {}))
+    sweeps = adjacency_cases(ctx) + class_cases(ctx) + truncate_cases(ctx) + depth_cases(ctx)
     for text, opts, layout in cs:
         for k in opts:
             ctx.count('opt:' + k)
+        check_filter(ctx, text, opts, layout)
+    for text, opts, layout in sweeps:
         check_filter(ctx, text, opts, layout)
     ctx.samples += [[short(t, 70), o] for t, o, _ in cs[:3]]
     if ctx.model.available and hasattr(streams, 's_fmt'):
@@ -141,13 +237,67 @@ def has_expanding_case_letter(text):
     return any(c.isalpha() and (not all(isw(x) for x in c.upper()) or not all(isw(x) for x in c.lower())) for c in text)
 
 
+def comment_first_child_of_group(text):
+    """KF-C08-1 by its mechanism: some comment has no predecessor inside its own (non-statement) group — group_as / group_typecasts / … accept a
+    comment as left operand, so it becomes the first child of the new group and is removed without a replacement blank"""
+    from sqlparse import sql
+    try:
+        stmts = sqlparse.parse(text)
+    except Exception:
+        return False
+    stack = [g for st in stmts for g in st.get_sublists()]
+    while stack:
+        g = stack.pop()
+        first = g.tokens[0] if g.tokens else None
+        if first is not None and not isinstance(g, sql.Comment) and (isinstance(first, sql.Comment) or (first.ttype is not None and first.ttype in T.Comment)):
+            return True
+        stack.extend(g.get_sublists())
+    return False
+
+
+def word_comment_period(text):
+    """KF-C08-8: a word typed other than Name, then comments (and whitespace), then a period: the lexer's name-before-period look-ahead
+    ([A-Z]\\w*(?=\\s*\\.)) sees through whitespace but not through comments"""
+    toks = oracles.lex(text)
+    for i, (tt, v) in enumerate(toks):
+        if tt not in T.Name and (v[:1].isalpha() or v[:1] == '_') and v.replace('_', 'a').isalnum():
+            j, seen = i + 1, False
+            while j < len(toks) and (toks[j][0] in T.Whitespace or toks[j][0] in T.Comment):
+                seen = seen or toks[j][0] in T.Comment
+                j += 1
+            if seen and j < len(toks) and toks[j][1][:1] == '.':
+                return True
+    return False
+
+
+def cut_ends_in_backslash(text, n):
+    for tt, v in oracles.lex(text):
+        if tt is T.Literal.String.Single and len(v) >= 2:
+            inner = v[2:-2] if v[:2] == "''" else v[1:-1]
+            cut = inner[:n]
+            if len(inner) > n and (len(cut) - len(cut.rstrip('\\'))) % 2 == 1:
+                return True
+    return False
+
+
+def ideal_relex_differs(text):
+    """KF-C08-8 by its mechanism: replace every ordinary comment of the input by a blank (a line break for a comment that ends its line) — the
+    best any comment stripper can do — and re-lex: if that text already reads as different tokens, a lexer rule that looks through whitespace
+    but not through comments (name-before-period, multi-word keywords like NOT NULL / ORDER BY / GO n) now reaches across the gap"""
+    toks = oracles.lex(text)
+    ideal = ''.join((('\n' if v[-1:] in '\r\n' else ' ') if (tt in T.Comment and not is_hint_text(v)) else v) for tt, v in toks)
+    a = [(ttname(tt), oracles.norm_kw(tt, v)) for tt, v in toks if tt not in T.Whitespace and not (tt in T.Comment and not is_hint_text(v))]
+    b = [(ttname(tt), oracles.norm_kw(tt, v)) for tt, v in oracles.lex(ideal) if tt not in T.Whitespace]
+    return a != b
+
+
 def classify(f, kf):
     import re
     opts = str(f.get('options'))
     for k in kf:
         if k['id'] == 'KF-C08-7' and "'identifier_case'" in opts and isinstance(f.get('input'), str) and has_expanding_case_letter(f['input']):
             return k['id']
-        if k['id'] == 'KF-C08-6' and "'strip_comments': True" in opts and re.search(r'(^\s*|\()(/\*.*?\*/|--[^\n]*\n|# [^\n]*\n)(/\*|--|# )', f['input'], re.S) \
+        if k['id'] == 'KF-C08-6' and "'strip_comments': True" in opts and re.search(r'(^\s*|\(|;\s*)(/\*.*?\*/|--[^\n]*\n|# [^\n]*\n)(/\*|--|# )', f['input'], re.S) \
                 and f.get('comments_got', 0) > f.get('comments_expected', 0):
             return k['id']
         if k['id'] == 'KF-C08-5' and "'strip_comments': True" in opts and 'changed something other' in f['what']:
@@ -158,7 +308,14 @@ def classify(f, kf):
             m = re.search(r"'truncate_strings': (\d+)", opts)
             if m and cuts_doubled_quote(f['input'], int(m.group(1))):
                 return k['id']
+            # the same slice without regard to escapes: the cut ends in a backslash and the marker is empty, so the backslash escapes the closing quote
+            if m and re.search(r"'truncate_char': ''", opts) and cut_ends_in_backslash(f['input'], int(m.group(1))):
+                return k['id']
         if k['id'] == 'KF-C08-1' and 'fused' in f['what'] and re.search(r'[\w"`\')\]]/\*.*?\*/[\w"`\'(]', f['input'], re.S):
+            return k['id']
+        if k['id'] == 'KF-C08-1' and 'fused' in f['what'] and "'strip_comments': True" in opts and isinstance(f.get('input'), str) and comment_first_child_of_group(f['input']):
+            return k['id']
+        if k['id'] == 'KF-C08-8' and 'fused' in f['what'] and "'strip_comments': True" in opts and isinstance(f.get('input'), str) and (word_comment_period(f['input']) or ideal_relex_differs(f['input'])):
             return k['id']
         if k['id'] == 'KF-C08-2' and 'own output' in f['what'] and "'strip_comments': True" in str(f.get('options')):
             return k['id']
